@@ -166,7 +166,7 @@ PROPS = {
         ],
     },
     "C17": {
-        "statement": "Meta.C17_inv (MetaInv after every register history) + C17_tys_first_registration + C17_get_spec / C17_get_some_iff / C17_bad_cast_panics_get + C17_next_spec / C17_next_conflict_panics / C17_bad_cast_panics_next + C17_iter_spec / C17_iter_once_each (stable, non-nightly meta.rs)",
+        "statement": "Meta.C17_inv (MetaInv after every register history) + C17_tys_first_registration + C17_get_spec / C17_get_some_iff / C17_get_some_same_address (any cast, any implementor) / C17_bad_cast_panics_get / C17_check_at_every_use (nothing is checked at registration, every use checks) + C17_next_spec / C17_next_item_same_address / C17_next_conflict_panics / C17_bad_cast_panics_next + C17_iter_spec / C17_iter_spec_any_vtable / C17_iter_once_each (stable, non-nightly meta.rs)",
         "engines": [{"engine": "meta", "args": {},
                      "quick": {"cases": 4000},
                      "thorough": {"cases": 50000, "small-scope": True, "long": True},
@@ -176,7 +176,8 @@ PROPS = {
             CELL,
             "a vtable is identified with the concrete type it was built for; attach_vtable's pointer cast is modelled as `type tag of the stored function = type tag of the value => the cast is right` (unsafe pointer work itself is not verified; no Miri in this environment)",
             "`present` = present under dynamic id 0, the only key the iterators look up; only the stable (non-`nightly`) variant of meta.rs is modelled and exercised",
-            "user code: <T as CastFrom<R>>::cast returns a pointer whose vtable is R's (forced by its signature in safe code); its address is arbitrary (universally quantified in the theorems)",
+            "user code: <T as CastFrom<R>>::cast returns an arbitrary trait-object pointer: address and vtable are both universally quantified in the theorems (a lawful implementation returns the address it was given with R's vtable). The address check of attach_vtable compares addresses only, so 'methods of the concrete type' is proved for lawful casts (the # Safety contract of CastFrom) and 'same address' for every cast; an address-preserving cast that attaches another type's vtable (first field, another zero-sized type at the same dangling address) is accepted by the code and by the model alike",
+            "the engine's implementors: zero-sized (align 1 / 64, with Drop, generic), sized 1 B - 4 KiB (align 1 packed .. 64, with Drop, generic), each kind with the lawful cast and with wrong casts (offset, other object of the same type, static, field at offset 0 / 8, object of another type, lawful-until-armed); what each cast does is declared in harness/src/engines/meta/types.rs and verified on the casts themselves at start-up; the harness is built with debug assertions on, so a check demoted to debug_assert! would not be noticed",
         ],
     },
 }
@@ -220,7 +221,7 @@ TEXT = {
     "C14": "Proof about every log the driver's panic-aware acceptor accepts: a panic is reported iff a system was unwound, nothing ordered after an unwound system starts, nothing starts twice, every opened window is closed; the acceptor accepts every declaratively legal execution. Tied by injecting a panic into every placed system in turn (run / fetch), payload, borrow probe, clean re-dispatch. PARTIAL: rayon's re-raise and unwinding are assumed; rayon may leave out unstarted siblings (modelled).",
     "C15": "Proof over all interleavings of caller and background-job steps of the async state machine: accessor quiescence, running() truthfulness, no overtaking, thread-local systems only inside wait on the caller, each dispatch once; accepted logs are runs. Tied by gated real runs. PARTIAL: mpsc and rayon spawn are modelled.",
     "C16": "Proof: every leaf once, seq order, par may overlap, reads/writes = concatenation over leaves, setup reaches leaves, Par::with's debug check fails iff a leaf-level conflict exists; trees that pass the checks are isolated. Tied by run-time assembled real Par/Seq trees (depth <= 5, fan-out <= 6), traces, debug-assertion panics.",
-    "C17": "Proof: the table invariant under any register history, get/get_mut specification, one next step and whole iteration (first-registration order, once each, exactly the registered present types, shared vs exclusive borrows), bad casts panic. Tied by nine implementing types incl. a wrong CastFrom, all presence subsets, exhaustive small scope.",
+    "C17": "Proof: the table invariant under any register history, get/get_mut specification, one next step and whole iteration (first-registration order, once each, exactly the registered present types, shared vs exclusive borrows), bad casts panic at every use whatever the implementor (registration checks nothing), a returned reference always has the resource's address. Tied by forty implementing types (zero-sized / sized / Drop / aligned / generic, each with the lawful CastFrom and wrong ones of six shapes), tables for a plain trait and for a trait with supertraits, all presence subsets, exhaustive small scopes.",
     "C18": "Proof: add panics iff a dependency is unknown (first such) or a non-empty name is taken; every other registration succeeds; group size <= 4 < 5, running times <= 20, targets in bounds, for every registration sequence and every builder state reachable through accepted and rejected calls. Tied by a malformed stream at every position and deep funnels.",
     "C19": "Proof: relabelled resources, permuted / duplicated declared lists, renamed systems, renumbered ids and re-tagged systems give identical tables for every registration sequence. Tied by transformed twins, a second process, and case-by-case comparison of the builds with and without the parallel feature.",
     "C20": "Proof: the printed table is the executed table (lock-step), each registered system once, the text is the rendering of the name tree, the name choice is total (placeholder for unnamed systems, after repair D1). Tied by byte-for-byte comparison of the real Debug text with the model's and with the real executed layout.",
